@@ -1128,7 +1128,10 @@ Definition check_file_case (c : fcase) : bool :=
   (* the text is a conformant file: the specification-level parser accepts it with these rows *)
   match fc_spec c with
   | None => true
-  | Some (w, rows) => result_table_eqb (spec_read O (spec_schema c w) t) (Ok (table_of (fc_ft c) rows))
+  | Some (w, rows) => match spec_read O (spec_schema c w) t with
+                      | Ok got => table_sim (case_fk c) got (table_of (fc_ft c) rows)
+                      | Err => false
+                      end
   end &&
   (* the model of the reader and the real reader agree (value, or both fail) *)
   match model_read c, fc_obs c with
@@ -1236,7 +1239,10 @@ Definition check_data_case (c : dcase) : bool :=
   (* every written file is a valid file of the format: the specification-level parser recovers the table *)
   forallb (fun f => match t_tab tr f, d_tab O d f with
                     | Some x, Some rows =>
-                        result_table_eqb (spec_read O (fk_schema (fk_of f)) x) (Ok (canon_table O (fk_of f) rows))
+                        match spec_read O (fk_schema (fk_of f)) x with
+                        | Ok got => table_sim (fk_of f) got (canon_table O (fk_of f) rows)   (* row order is not part of the format *)
+                        | Err => false
+                        end
                     | _, _ => true
                     end) (all_tfiles) &&
   match t_p3d tr, d_p3d O d with
